@@ -81,6 +81,7 @@ func frameMain(args []string) int {
 	seed := fs.Int64("seed", 1, "")
 	n := fs.Int("n", 100, "")
 	big := fs.Bool("big", false, "include items up to 70000 bytes")
+	huge := fs.Int("huge", 0, "number of streams with one item of 16 MiB or more")
 	fs.Parse(args)
 	t, err := tr.Create(*out)
 	if err != nil {
@@ -210,6 +211,69 @@ func frameMain(args []string) int {
 			t.Emit(tr.Ev{"e": "Cmp", "a": ints(a), "b": ints(b), "r": sign(nitro.CompareKV(a, b)), "rr": sign(nitro.CompareKV(b, a))})
 		})
 	}
+	// items whose length needs the upper bytes of the 4-byte prefix (16 MiB and more): too large to log byte by byte, so the
+	// frame headers found at the offsets the format prescribes, the file size and the reader's results are logged
+	for _, L := range hugeLens(*huge, rnd) {
+		L := L
+		guarded(t, func() {
+			nitro.DiskBlockSize = 512 * 1024
+			lens := []int{8, L, 5}
+			var items [][]byte
+			for _, n := range lens {
+				b := make([]byte, n)
+				rnd.Read(b)
+				items = append(items, b)
+			}
+			os.Remove(path)
+			w := db.VerifNewFileWriter()
+			if err := w.Open(path); err != nil {
+				die("open: %v", err)
+			}
+			werr := ""
+			for _, it := range items {
+				if err := w.WriteItem(db.VerifNewItem(it)); err != nil {
+					werr = err.Error()
+				}
+			}
+			wsum := w.Checksum()
+			if err := w.Close(); err != nil {
+				werr = err.Error()
+			}
+			st, _ := os.Stat(path)
+			f, _ := os.Open(path)
+			hdrs := [][]int{}
+			off := int64(0)
+			for _, n := range append(lens, 0) {
+				h := make([]byte, 4)
+				f.ReadAt(h, off)
+				hdrs = append(hdrs, ints(h))
+				off += 4 + int64(n)
+			}
+			f.Close()
+			r := db.VerifNewFileReader(1)
+			if err := r.Open(path); err != nil {
+				die("ropen: %v", err)
+			}
+			dlens, same, eos, rerr := []int{}, []bool{}, false, ""
+			for k := 0; k < len(items)+3; k++ {
+				itm, err := r.ReadItem()
+				if err != nil {
+					rerr = err.Error()
+					break
+				}
+				if itm == nil {
+					eos = true
+					break
+				}
+				dlens = append(dlens, len(itm.Bytes()))
+				same = append(same, k < len(items) && bytes.Equal(itm.Bytes(), items[k]))
+			}
+			rsum := r.Checksum()
+			r.Close()
+			t.Emit(tr.Ev{"e": "Huge", "lens": lens, "size": st.Size(), "hdrs": hdrs, "dlens": dlens, "same": same, "eos": eos,
+				"werr": werr, "rerr": rerr, "sumeq": wsum == rsum})
+		})
+	}
 	os.Remove(path)
 	fmt.Printf("{\"scenarios\":%d,\"events\":%d}\n", *n, t.Count())
 	return 0
@@ -223,4 +287,17 @@ func sign(x int) int {
 		return 1
 	}
 	return 0
+}
+
+func hugeLens(n int, rnd *rand.Rand) []int {
+	base := []int{1 << 24, 1<<24 + 3, 1<<24 + 1<<16 + 258, 1<<25 + 1}
+	out := []int{}
+	for i := 0; i < n; i++ {
+		if i < len(base) {
+			out = append(out, base[i])
+		} else {
+			out = append(out, 1<<24+rnd.Intn(1<<24))
+		}
+	}
+	return out
 }
